@@ -175,4 +175,16 @@ example : (boxReadFull 9 [6, 4] { buf := [1,2], src := { rest := [3,4,5,6,7,8,9,
 /-- and a single Read really is short under a one-byte schedule -/
 example : (Br.read { buf := [], src := { rest := [1,2,3,4,5], sched := [1] }, size := 16 } 4).1 = some [1] := by decide
 
+/-- **preview.RenderPreview's read loop** (Read into a 2048-byte chunk until `size` bytes arrived or a Read ends the
+stream) over a box: the image is exactly the first min(size, tightest remaining length) bytes of the logical stream, for
+every schedule; the boxes are charged exactly those bytes. -/
+theorem C08_preview_loop_spec (ls : List Nat) (b : Br) (n : Nat) :
+    (boxReadChunked 2048 (n + 1) ls b n).1 = b.logical.take (min n (minAll ls)) ∧
+    (boxReadChunked 2048 (n + 1) ls b n).2.1 = ls.map (· - (boxReadChunked 2048 (n + 1) ls b n).1.length) ∧
+    (boxReadChunked 2048 (n + 1) ls b n).2.2.logical = b.logical.drop (min n (minAll ls)) :=
+  boxReadChunked_spec 2048 (by decide) (n + 1) ls b n (Nat.lt_succ_self n)
+
+/-- non-vacuity: with a 3-byte chunk the loop needs several Reads and still collects the same five bytes -/
+example : (boxReadChunked 3 8 [5] { buf := [], src := { rest := [1,2,3,4,5,6,7,8], sched := [2,2,2,2] }, size := 16 } 7).1 = [1,2,3,4,5] := by decide
+
 end Imeta.Bufio
